@@ -30,6 +30,12 @@ def run(chk, prog, tier):
         ERR = None
     if ERR is not None:
         ERR.c10_rules(chk, prog, tab) if hasattr(ERR, "c10_rules") else None
+    # validators stay on every accepting path (must-pass-through; instances from the pinned tree, ref/mustcall.json)
+    if ERR is not None:
+        from valib import mustcall as MC
+        MC.mustcall_rule(chk, prog, ERR.internal_status_kinds(prog))
+    PLz = __import__("valib.pipeline", fromlist=["x"])
+    PLz.zero_read_rule(chk, prog, PLz.Roles(prog))
     # empty operands: every operand (not only the first) passes the leading-comma test of the operand tokenizer
     from checks import C09
     for fn, f in sorted(prog.lib_functions().items()):
@@ -64,5 +70,6 @@ def run(chk, prog, tier):
     roles = PL.Roles(prog)
     SC.noswallow_rule(chk, prog, roles)
     chk.explanation = ("Decides: every row accepts only operand-kind tuples the ISA defines for that form (rows x kind strings, "
-                       "against the x86 reference), the kind-string -> format map, the scale set. Known findings: the \"\"/\"i\" "
+                       "against the x86 reference), the kind-string -> format map, the scale set. (MUSTCALL) every status-returning validator the pinned tree calls on all accepting paths of a function is still "
+                       "called on all of them. Known findings: the \"\"/\"i\" "
                        "format conflation (per row). NOT decided: which concrete strings reach which check.")
